@@ -219,6 +219,23 @@ def main(argv):
                         for a in p.arcs:
                             a["angle"] = 10.0
                             a["maxseg"] = rng.choice([10.0, 20.0])
+            if fam == "rects" and p.holes and stats.get("offset_drawings", 0) < (2 if ck.tier == "quick" else 12):
+                # a drawing far from the origin (site coordinates) whose hole label sits 0.001 inside a wall of its hole: the label is a seed
+                # point handed to Triangle, it has to stay on its side of the wall at this magnitude (double precision carries 1e-11 here)
+                hole_regs = [r for r in p.regions if r["role"] == "hole"]
+                hr = hole_regs[0]
+                inside = [h for h in p.holes if min(q[0] for q in hr["outer"]) < h["x"] < max(q[0] for q in hr["outer"])
+                          and min(q[1] for q in hr["outer"]) < h["y"] < max(q[1] for q in hr["outer"])]
+                if inside:
+                    off = 250000.0
+                    inside[0]["x"] = min(q[0] for q in hr["outer"]) + 0.001
+                    inside[0]["y"] = (min(q[1] for q in hr["outer"]) + max(q[1] for q in hr["outer"])) / 2
+                    for e_ in p.nodes + p.labels + p.holes:
+                        e_["x"] += off; e_["y"] += off
+                    for r in p.regions:
+                        r["outer"] = [(q[0] + off, q[1] + off) for q in r["outer"]]
+                        r["inner"] = [[(q[0] + off, q[1] + off) for q in lp] for lp in r["inner"]]
+                    stats["offset_drawings"] = stats.get("offset_drawings", 0) + 1
             p.minangle = rng.choice([1.0, 10.0, 20.0, 25.0, 30.0, 33.0])
             p.smartmesh = rng.choice([0, 1, None])
             p.forcemaxmesh = rng.choice([0, 1, None])
